@@ -1,7 +1,16 @@
 mod common;
 mod py;
+mod c01_05;
+mod c03cli;
+mod c10;
+mod factcheck;
+mod props;
+mod tycmp;
+mod c15;
 mod c16;
 mod c18;
+mod gen;
+mod prog;
 mod lex;
 mod model;
 mod obs;
@@ -62,15 +71,31 @@ fn main() {
     };
     let _ = std::fs::remove_dir_all(format!("{VERIF}/replays/found/{prop}"));
     let run = Run::new(prop, tier);
-    match prop {
-        "C16" => c16::run(&run),
-        "C18" => c18::run(&run),
-        _ => {
+    match table(prop) {
+        Some((r, _)) => r(&run),
+        None => {
             eprintln!("{prop}: no check implemented");
             std::process::exit(2);
         }
     }
     std::process::exit(run.finish());
+}
+
+type RunFn = fn(&Run);
+type ReplayFn = fn(&Run, &serde_json::Value) -> Result<Vec<Violation>, String>;
+fn table(prop: &str) -> Option<(RunFn, ReplayFn)> {
+    Some(match prop {
+        "C01" => (props::c01_run, props::c01_replay),
+        "C02" => (props::c02_run, props::c02_replay),
+        "C03" => (props::c03_run, props::c03_replay),
+        "C04" => (props::c04_run, props::c04_replay),
+        "C05" => (props::c05_run, props::c05_replay),
+        "C10" => (c10::run, c10::replay),
+        "C15" => (c15::run, c15::replay),
+        "C16" => (c16::run, c16::replay),
+        "C18" => (c18::run, c18::replay),
+        _ => return None,
+    })
 }
 
 fn do_replay(prop: &'static str, file: &str) -> i32 {
@@ -90,10 +115,9 @@ fn do_replay(prop: &'static str, file: &str) -> i32 {
     };
     let check = v.get("check").and_then(|c| c.as_str()).unwrap_or("").to_string();
     let run = Run::new(prop, Tier::Quick);
-    let res = match prop {
-        "C16" => c16::replay(&run, &v["case"]),
-        "C18" => c18::replay(&run, &v["case"]),
-        _ => Err(format!("{prop}: no replay implemented")),
+    let res = match table(prop) {
+        Some((_, rp)) => rp(&run, &v["case"]),
+        None => Err(format!("{prop}: no replay implemented")),
     };
     match res {
         Err(e) => {
